@@ -102,3 +102,43 @@ def register(reg):
         loops={0: {"inv": ["True"], "modifies": ["have_match_for"]},
                1: {"inv": ["True"]}, 2: {"inv": ["True"]}, 3: {"inv": ["True"], "modifies": ["have_match_for"]}},
     )
+    _register_weight_table(reg)
+
+
+def _register_weight_table(reg):
+    """table (finite, exhaustive): the priority classes the property names -- int / float before string before path -- as the
+    converter classes' own `weight` attributes, resolved through the MRO of the classes DEFAULT_CONVERTERS maps to; the
+    matcher sorts dynamic transitions by that weight (StateMachineMatcher.update: `state.dynamic.sort(key=... .weight)`)"""
+    import ast
+    from pyvc.extract import ModuleInfo, ClassInfo
+
+    @reg.table("C03", "converter-weights-order-int-float-string-path")
+    def _weights():
+        mod = ModuleInfo.get("werkzeug/routing/converters.py")
+        table = None
+        for st in mod.tree.body:
+            tgt = st.target if isinstance(st, ast.AnnAssign) else (st.targets[0] if isinstance(st, ast.Assign) else None)
+            if isinstance(tgt, ast.Name) and tgt.id == "DEFAULT_CONVERTERS" and isinstance(st.value, ast.Dict):
+                table = {k.value: v.id for k, v in zip(st.value.keys, st.value.values)
+                         if isinstance(k, ast.Constant) and isinstance(v, ast.Name)}
+        if not table:
+            return [("DEFAULT_CONVERTERS-found", False, "the name -> class table was not found as a dict literal")]
+
+        def weight(cname):
+            for k in mod.classes[cname].mro():
+                if isinstance(k, ClassInfo) and "weight" in k.attrs:
+                    return ast.literal_eval(k.attrs["weight"])
+            return None
+        w = {name: weight(cls) for name, cls in table.items()}
+        res = [("all-seven-names", set(w) >= {"default", "string", "any", "path", "int", "float", "uuid"}, str(w))]
+        res.append(("int-and-float-before-string", w.get("int") == w.get("float") and w["int"] is not None
+                    and w["int"] < w["string"] and w["string"] == w["default"], str(w)))
+        res.append(("string-before-path", w["string"] is not None and w["path"] is not None and w["string"] < w["path"]
+                    and w["int"] < w["path"], str(w)))
+        res.append(("no-converter-outranks-the-numbers-or-trails-path",
+                    all(v is not None and w["int"] <= v <= w["path"] for v in w.values()), str(w)))
+        # and the matcher really sorts the dynamic transitions by that attribute
+        upd = ModuleInfo.get("werkzeug/routing/matcher.py").classes["StateMachineMatcher"].methods["update"][-1]
+        sorts = [ast.unparse(n) for n in ast.walk(upd) if isinstance(n, ast.Call) and isinstance(n.func, ast.Attribute) and n.func.attr == "sort"]
+        res.append(("dynamic-transitions-sorted-by-weight", sorts == ["state.dynamic.sort(key=lambda entry: entry[0].weight)"], str(sorts)))
+        return res
